@@ -43,15 +43,15 @@ UNIT = dict(
         dict(text=open(os.path.join(U1, "lib_b.rs")).read().split("impl SendDispatcher {")[0]),
         dict(text=open(__file__.replace("unit.py", "lib.rs")).read()),
         dict(key="Stage::setup", file=STAGE, kind="fn", name="setup", owner=r"impl Stage\b", emit_owner="impl Stage", sig_prefix=NOISO, assumed="verified in unit U1", groups=["never"]),
-        dict(key="Stage::execute", groups=["hand"], file=STAGE, kind="fn", name="execute", owner=r"impl Stage\b", emit_owner="impl Stage", sig_prefix=NOISO),
-        dict(key="Data::inner", groups=["hand"], file=AS, kind="fn", name="inner", owner=DO, emit_owner="impl<R> Data<R>", pre_body_rules=PRE),
+        dict(key="Stage::execute", groups=["hand", "aonce"], file=STAGE, kind="fn", name="execute", owner=r"impl Stage\b", emit_owner="impl Stage", sig_prefix=NOISO),
+        dict(key="Data::inner", groups=["hand", "aonce"], file=AS, kind="fn", name="inner", owner=DO, emit_owner="impl<R> Data<R>", pre_body_rules=PRE),
         dict(key="Data::inner_noblock", groups=["hand"], file=AS, kind="fn", name="inner_noblock", owner=DO, emit_owner="impl<R> Data<R>", pre_body_rules=PRE),
-        dict(key="Data::sender", groups=["hand"], file=AS, kind="fn", name="sender", owner=DO, emit_owner="impl<R> Data<R>"),
+        dict(key="Data::sender", groups=["hand", "aonce"], file=AS, kind="fn", name="sender", owner=DO, emit_owner="impl<R> Data<R>"),
         dict(key="new_async", groups=["hand"], file=AS, kind="fn", name="new_async"),
         dict(key="AsyncDispatcher::setup", groups=["hand", "ahooks"], file=AS, kind="fn", name="setup", owner=AD, emit_owner=ADO, sig_prefix=NOISO, mut_iter_vars=["stages"],
              sig_rules=[(r"where\s*R\s*:\s*BorrowMut\s*<\s*World\s*>\s*,?", "")]),
-        dict(key="AsyncDispatcher::dispatch", groups=["hand"], file=AS, kind="fn", name="dispatch", owner=AD, emit_owner=ADO, sig_prefix=NOISO),
-        dict(key="AsyncDispatcher::wait", groups=["hand", "tlw"], file=AS, kind="fn", name="wait", owner=AD, emit_owner=ADO, sig_prefix=NOISO),
+        dict(key="AsyncDispatcher::dispatch", groups=["hand", "aonce"], file=AS, kind="fn", name="dispatch", owner=AD, emit_owner=ADO, sig_prefix=NOISO),
+        dict(key="AsyncDispatcher::wait", groups=["hand", "tlw", "aonce"], file=AS, kind="fn", name="wait", owner=AD, emit_owner=ADO, sig_prefix=NOISO),
         dict(key="AsyncDispatcher::wait_without_tl", groups=["hand"], file=AS, kind="fn", name="wait_without_tl", owner=AD, emit_owner=ADO),
         dict(key="AsyncDispatcher::running", groups=["hand"], file=AS, kind="fn", name="running", owner=AD, emit_owner=ADO),
         dict(key="AsyncDispatcher::world", groups=["hand"], file=AS, kind="fn", name="world", owner=AD, emit_owner=ADO),
